@@ -82,6 +82,10 @@ graph::graph(const graph & gr)
 }
 graph & graph::operator= (const graph & gr)
 {
+	/* assignment to itself keeps the content */
+	if (this == &gr) {
+		return *this;
+	}
 	mpt_graph_fini(this);
 	mpt_graph_init(this, &gr);
 	return *this;
@@ -524,6 +528,10 @@ axis::axis(const axis & ax)
 }
 axis & axis::operator= (const axis & ax)
 {
+	/* assignment to itself keeps the content */
+	if (this == &ax) {
+		return *this;
+	}
 	mpt_axis_fini(this);
 	mpt_axis_init(this, &ax);
 	return *this;
@@ -600,6 +608,10 @@ world::world(const world & wld)
 }
 world & world::operator= (const world & wld)
 {
+	/* assignment to itself keeps the content */
+	if (this == &wld) {
+		return *this;
+	}
 	mpt_world_fini(this);
 	mpt_world_init(this, &wld);
 	return *this;
